@@ -317,6 +317,24 @@ fn compare<A: Alphabet, C: PositiveLength>(case: &Case, p: &Prepared<A, C>, outs
                     format!("row range {:?} gives {} rows", p.sub, o.part.matrix().rows()),
                 ));
             }
+            // the flat read-outs of a block buffer are its cells in column-major order: as many as iter()
+            // yields, never more than the block holds
+            let prow = o.part.matrix().rows();
+            let flat = o.part.unstripe();
+            let by_iter: Vec<f32> = o.part.iter().cloned().collect();
+            let by_from: Vec<f32> = Vec::from(o.part.clone());
+            if flat.len() != by_iter.len() || by_from.len() != by_iter.len() || by_iter.len() > prow * C::USIZE {
+                return Some(Failure::new(
+                    format!("{}:subrange-readout", o.name),
+                    format!("rows {:?}: unstripe() gives {} values, Vec::from {} values, iter() {} values; the block has {} cells", p.sub, flat.len(), by_from.len(), by_iter.len(), prow * C::USIZE),
+                ));
+            }
+            for i in 0..by_iter.len() {
+                let cell = o.part.matrix()[i % prow][i / prow];
+                if !same(flat[i], cell) || !same(by_iter[i], cell) || !same(by_from[i], cell) {
+                    return Some(Failure::new(format!("{}:subrange-readout", o.name), format!("rows {:?}: flat element {} is not the cell ({}, {}) of the block", p.sub, i, i % prow, i / prow)));
+                }
+            }
             for (rr, srow) in p.sub.clone().enumerate() {
                 for c in 0..C::USIZE {
                     let pos = c * rows + srow;
